@@ -51,6 +51,7 @@ import (
 
 type c18m struct {
 	f *Fix
+	r *Run
 }
 
 func c18mGuard(fn func() string) (res string) {
@@ -343,6 +344,7 @@ func (h *c18m) exec(line string) string {
 				es = append(es, fmt.Sprintf("%s:%s:%d", s.SequencerAddress[1:], s.ClientId[1:], s.Height))
 			}
 			app.LightClientKeeper.InitGenesis(c2, lctypes.GenesisState{HeaderSigners: exp.HeaderSigners})
+			var os_ []string
 			seen := map[string]bool{}
 			for _, s := range exp.HeaderSigners {
 				k := fmt.Sprintf("%s:%d", s.ClientId[1:], s.Height)
@@ -355,12 +357,21 @@ func (h *c18m) exec(line string) string {
 					by = "s?"
 				}
 				ms = append(ms, k+">"+by[1:])
+				by0, err := app.LightClientKeeper.GetSigner(c1, s.ClientId, s.Height)
+				if err != nil {
+					by0 = "s?"
+				}
+				os_ = append(os_, k+">"+by0[1:])
 			}
 			sort.Strings(ms)
+			sort.Strings(os_)
 			if len(es) == 0 {
-				return "exp=- map=-"
+				return "exp=- map=- orig=-"
 			}
-			return "exp=" + strings.Join(es, ",") + " map=" + strings.Join(ms, ",")
+			if strings.Join(ms, ",") != strings.Join(os_, ",") {
+				h.r.Hit("lcsig/height-map-changed-by-import")
+			}
+			return "exp=" + strings.Join(es, ",") + " map=" + strings.Join(ms, ",") + " orig=" + strings.Join(os_, ",")
 		case "spons":
 			c2 := h.branch(0)
 			var infos []sponsorshiptypes.VoterInfo
@@ -421,7 +432,7 @@ func TestC18Mod(t *testing.T) {
 	r := NewRun(t, "C18Mod")
 	r.AutoClass = true
 	defer r.Close()
-	h := &c18m{f: NewFix(t)}
+	h := &c18m{f: NewFix(t), r: r}
 	lastFix = nil // stateless scenarios on store branches: nothing for the generic trace-end hook to export
 	if lines := ReplayLines(); lines != nil {
 		for _, l := range lines {
@@ -455,7 +466,7 @@ func TestC18Mod(t *testing.T) {
 				if g.Chance(70) {
 					xs = append(xs, fmt.Sprintf("c:%d", g.Intn(10)))
 				} else {
-					xs = append(xs, fmt.Sprintf("u:%d:%d", 1+g.Intn(11), g.Intn(50)))
+					xs = append(xs, fmt.Sprintf("u:%d:%d", 1+g.Intn(5), g.Intn(50)))
 				}
 			}
 			emit("iroops", "iroops "+strings.Join(xs, ","))
